@@ -29,7 +29,7 @@ def showResp : Py Resp → String
   | .ok (.shutter _ r) => s!"shutter {r.position} {r.direction}"
   | .ok (.schedules _ recs) => "schedules " ++ (if recs.isEmpty then "-" else ";".intercalate
       ((recs.mergeSort (fun a b => a.id ≤ b.id)).map (fun r =>
-        s!"{r.id},{if r.recurring then 1 else 0},{showNats (r.days.mergeSort (· ≤ ·))},{String.ofList r.start},{String.ofList r.stop},{String.ofList r.duration},{encText r.display}")))
+        s!"{r.id},{if r.recurring then 1 else 0},{if r.days.isEmpty then "-" else "+".intercalate ((r.days.mergeSort (· ≤ ·)).map toString)},{String.ofList r.start},{String.ofList r.stop},{String.ofList r.duration},{encText r.display}")))
 
 /-- `ir=<u:id>,<onofftype>,<u:key>/<u:para>/<u:hex>,…` -/
 def parseIrSet (tok : String) : Option IrSet := do
@@ -79,6 +79,25 @@ def showHandled : Handled → String
   | .warnUnknown => "warn"
   | .raised e => "raise " ++ e.name
   | .device d => "device " ++ showDev d
+
+/-- `z=<base>[;<instant>:<offset>]…` -/
+def parseZone (tok : String) : Option Zone := do
+  let body := (tok.drop 2).toString
+  match body.splitOn ";" with
+  | b :: ts =>
+    let base ← int? b
+    let trans ← ts.mapM (fun t => match t.splitOn ":" with
+      | [a, o] => do pure ((← int? a), (← int? o))
+      | _ => none)
+    pure { base, trans }
+  | [] => none
+
+def showDays (l : List Nat) : String := if l.isEmpty then "-" else "+".intercalate (l.map toString)
+
+def showRecs (recs : List SchedRec) : String :=
+  if recs.isEmpty then "-" else ";".intercalate
+    ((recs.mergeSort (fun a b => a.id ≤ b.id)).map (fun r =>
+      s!"{r.id},{if r.recurring then 1 else 0},{showDays (r.days.mergeSort (· ≤ ·))},{String.ofList r.start},{String.ofList r.stop},{String.ofList r.duration},{encText r.display}"))
 
 def drive : List String → String
   | ["sign", p] =>
@@ -132,6 +151,26 @@ def drive : List String → String
       | _ => none)
     let ds := bridgeRun arr
     if ds.isEmpty then "-" else " | ".intercalate (ds.map (fun (p, d) => s!"{p} {showDev d}"))
+  | ["t2h", z, now, txt] =>
+    match parseZone z, int? now, text? txt with
+    | some z, some n, some s => match timeToHexCands z n s with
+      | .ok l => "ok " ++ ",".intercalate (l.map String.ofList)
+      | .error e => "raise " ++ e.name
+    | _, _, _ => "bad-arg"
+  | ["h2l", z, h] =>
+    match parseZone z with
+    | some z => showPyHex (hexToLocal z (if h == "-" then [] else h.toList))
+    | none => "bad-arg"
+  | ["pretty", z, now, start, days] =>
+    match parseZone z, int? now, text? start with
+    | some z, some n, some s => showPyText (prettyNextRun (wall z n) s ((csvNats days).eraseDups.mergeSort (· ≤ ·)))
+    | _, _, _ => "bad-arg"
+  | ["getsched", z, now, msg] =>
+    match parseZone z, int? now, bytesOfHex? msg with
+    | some z, some n, some m => match getSchedulesZ z n m with
+      | .ok recs => "ok " ++ showRecs recs
+      | .error e => "raise " ++ e.name
+    | _, _, _ => "bad-arg"
   | "op" :: rest => runOpLine rest
   | _ => "bad-op"
 
